@@ -65,3 +65,55 @@ def run_c01(ck):
                           "look-ahead separators, concatenated / sliced / little-endian / position-dependent productions) x random programs "
                           "(global and nested labels, forward/backward references, constants, data of many widths, #res/#align/#addr) with operand "
                           "values on and just outside every range boundary; distinct = generated program index, minus skipped")
+
+
+def run_c07(ck):
+    quick = ck.tier == "quick"
+    rng = random.Random(ck.seed + 7)
+    n = 220 if quick else 3000
+    k = 3 if quick else 8
+    groups = []
+    jobs = []
+    for i in range(n):
+        P = genasm.gen_program(rng)
+        rends = [(P, None)] + [genasm.rerender(rng, P) for _ in range(k)]
+        groups.append(rends)
+        for Q, decor in rends:
+            text = genasm.render_program(Q) if decor is None else genasm.render_program_decorated(Q, decor)
+            jobs.append({"mode": "asm", "files": {"main.asm": text}, "roots": ["main.asm"],
+                         "want": {"messages": False, "spans": False, "events": False}})
+    results = common.run_jobs(jobs, ck.wd + "/jobs")
+    ck.evaluations += len(jobs)
+    events = []
+    for i, rends in enumerate(groups):
+        rs = results[i * (k + 1):(i + 1) * (k + 1)]
+        if any(r.get("crash") or r.get("panic") for r in rs):
+            for j, r in enumerate(rs):
+                if r.get("crash") or r.get("panic"):
+                    ck.violation("panic:%s@%s" % (str(r.get("panic") or r.get("crash"))[:60], r.get("panic_at", "")),
+                                 {"source": jobs[i * (k + 1) + j]["files"]["main.asm"][:800]}, {"job": jobs[i * (k + 1) + j]})
+            continue
+        events.append({"ev": "asm7", "case": i, "progs": [Q for Q, _ in rends], "obs": [observe(r) for r in rs]})
+        if i % 80 == 0:
+            ck.sample({"canonical": jobs[i * (k + 1)]["files"]["main.asm"], "rendering": jobs[i * (k + 1) + 1]["files"]["main.asm"],
+                       "accepted": [not r.get("error") for r in rs]}, limit=3)
+    failed = tv.judge(ck, "TraceAsm", "TraceAsm.cfg", events, ck.wd, tag="asm7", shard=60, timeout=2400)
+    ck.traces += len(events) * (k + 1)
+    for case in sorted(failed):
+        for tag in sorted(set(failed[case])):
+            base = case * (k + 1)
+            ck.violation("TraceAsm:C07:" + tag,
+                         {"verdict": tag, "canonical": jobs[base]["files"]["main.asm"],
+                          "renderings": [jobs[base + j]["files"]["main.asm"] for j in range(1, min(k, 2) + 1)],
+                          "accepted": [not r.get("error") for r in results[base:base + k + 1]],
+                          "bits": [r.get("bits", "")[:96] for r in results[base:base + k + 1]]},
+                         {"jobs": jobs[base:base + k + 1], "progs": [Q for Q, _ in groups[case]], "spec": "TraceAsm"})
+    skipped = sum(v for kk, v in ck.extra.items() if kk.startswith("skipped:"))
+    ck.nontrivial = set(range(len(events) - skipped))
+    ck.assumptions += [
+        "renderings: letter case of tokens that were produced for literal pattern parts (and of the pattern literals themselves), additional blanks/tabs "
+        "between tokens, block comments after a blank and trailing comments, any order of rules and any partition of the top-level rules into blocks, "
+        "consistent renaming of global symbols; each rendering is itself an abstract program judged by Asm.tla, and the specification is required to be invariant",
+        "a block comment directly after a token without a blank in front is not generated (known sensitivity F14)",
+    ]
+    return ck.finish(rule="generated size-static programs x %d re-renderings each; distinct = program index minus skipped" % k)
